@@ -29,6 +29,43 @@ class FuncRef(object):
         return "<fn %s>" % self.finfo.fq
 
 
+class LamRef(object):
+    """a lambda expression with plain positional parameters, closed over the environment it was written in"""
+    def __init__(self, node, env):
+        self.node = node
+        self.env = env
+
+    def __repr__(self):
+        return "<lambda %s>" % norm_text(self.node)[:60]
+
+
+class GenVal(object):
+    """a generator expression over a range, with the number of items already taken from it (next() consumes one; a loop,
+    enumerate(), list() ... take the rest).  Only straight-line use is modelled: the object is shared by forked states."""
+    def __init__(self, comp):
+        self.comp = comp            # the listcomp normal form [g(c) for c in range(lo, hi, st)]
+        self.taken = 0
+        self.done = False
+
+    def _parts(self):
+        la = self.comp.single_atom()
+        return la.args[0], la.args[1], la.args[2]
+
+    def next_item(self):
+        body, tag, (lo, hi, st) = self._parts()
+        at = lo + Rat.const(self.taken) * st
+        self.taken += 1
+        return body.subst(lambda a: at if a == Sym(tag, ("int", "loopvar")) else None)
+
+    def remaining(self):
+        body, tag, (lo, hi, st) = self._parts()
+        self.done = True
+        return Rat.atom(Fn("listcomp", (body, tag, (lo + Rat.const(self.taken) * st, hi, st))))
+
+    def __repr__(self):
+        return "<generator %s, %d taken>" % (show(self.comp)[:60], self.taken)
+
+
 class ExtRef(object):
     def __init__(self, dotted):
         self.dotted = dotted
@@ -231,6 +268,38 @@ def pyconst(v):
     return v
 
 
+def _range_of_listcomp(it, tag):
+    """(range, item) when `it` is a comprehension over a range: its k-th item is the element expression at the k-th value of
+    the range, so a loop over it is a loop over that range (loop variable `tag`); enumerate() of it adds the position"""
+    start = None
+    if isinstance(it, tuple) and len(it) in (2, 3) and it[0] == "enumerate" and isinstance(it[1], Rat):
+        start = it[2] if len(it) == 3 else Rat.const(0)
+        it = it[1]
+    la = it.single_atom() if isinstance(it, Rat) else None
+    if isinstance(la, Fn) and la.name == "listcomp" and isinstance(la.args[0], Rat) and isinstance(la.args[2], tuple) and len(la.args[2]) == 3 \
+            and all(isinstance(x, Rat) for x in la.args[2]):
+        var = Sym(la.args[1], ("int", "loopvar"))
+        new = Rat.sym(tag, ("int", "loopvar"))
+        item = la.args[0].subst(lambda a: new if a == var else None)
+        lo, hi, st = la.args[2]
+        if start is not None:
+            if not isinstance(start, Rat):
+                return None
+            return RangeVal(lo, hi, st), ((new - lo) / st + start, item)
+        return RangeVal(lo, hi, st), item
+    return None
+
+
+def _subst_val(v, f):
+    if isinstance(v, Rat):
+        return v.subst(f)
+    if isinstance(v, (tuple, list)):
+        return type(v)(_subst_val(x, f) for x in v)
+    if isinstance(v, dict):
+        return {k: _subst_val(x, f) for k, x in v.items()}
+    return v
+
+
 def _known_real(v):
     """the value is a real array whatever its operand was: a real or imaginary part, a modulus or a phase"""
     a = v.single_atom() if isinstance(v, Rat) else None
@@ -391,29 +460,71 @@ class Interp(object):
                             ok_any = True
                             break
                     if ok_any:
-                        keep.append(alt)
+                        keep.append((alt, conds_list))
                 if len(keep) == 1:
-                    return self.resolve_paths(keep[0], cond_nf)
+                    return self.resolve_paths(keep[0][0], cond_nf)
+                if 1 < len(keep) < len(a.args):
+                    # several alternatives remain possible: the contradicted ones are dropped
+                    at = Fn("paths", tuple(k_[0] for k_ in keep))
+                    self.paths_conds.setdefault(at.key(), [k_[1] for k_ in keep])
+                    return Rat.atom(at)
             return None
         return v.subst(f)
 
     def paths(self, finfo, args=None, kwargs=None, self_obj=None, split=False):
         """list of (conds text, cond_nf, return value) per returning path.  With `split`, a returned value that is the
         unresolved alternatives of one inlined callee (`return helper(...)`) is reported as one path per alternative, the
-        callee's own decisions appended to the caller's."""
+        callee's own decisions appended to the caller's.  With split="deep" the same is done for callee alternatives anywhere
+        inside the value (the decisions a helper makes become decisions of the caller's paths, as if it were inlined)."""
         out = []
         for s in self.run(finfo, args, kwargs, self_obj):
             v = None if s.ret is NORET else self.resolve_paths(s.ret, s.cond_nf)
-            a = v.single_atom() if isinstance(v, Rat) else None
-            if split and isinstance(a, Fn) and a.name == "paths" and a.key() in self.paths_conds:
-                for alt, conds_list in zip(a.args, self.paths_conds[a.key()]):
-                    for cs in conds_list:
-                        cnf = tuple(s.cond_nf) + tuple(cs)
-                        out.append((tuple(s.conds) + tuple("callee: %s%s" % ("" if tr else "not ", str(_vk(t))[:80]) for t, tr in cs), cnf,
-                                    self.resolve_paths(alt, cnf)))
-                continue
-            out.append((s.conds, s.cond_nf, v))
+            work = [(tuple(s.conds), tuple(s.cond_nf), v)]
+            guard = 0
+            while work:
+                conds, cnf, v = work.pop(0)
+                guard += 1
+                a = None
+                if split == "deep" and guard < 200:
+                    a = self._first_paths_atom(v)
+                elif split and isinstance(v, Rat):
+                    a = v.single_atom()
+                if split and isinstance(a, Fn) and a.name == "paths" and a.key() in self.paths_conds:
+                    decided = {vkey(t_): tr_ for t_, tr_ in cnf}
+                    new = []
+                    for alt, conds_list in zip(a.args, self.paths_conds[a.key()]):
+                        for cs in conds_list:
+                            if not all(decided.get(vkey(t_), tr_) == tr_ for t_, tr_ in cs):
+                                continue
+                            cnf2 = cnf + tuple(c_ for c_ in cs if vkey(c_[0]) not in decided)
+                            conds2 = conds + tuple("callee: %s%s" % ("" if tr else "not ", str(_vk(t))[:80]) for t, tr in cs
+                                                   if vkey(t) not in decided)
+                            v2 = _subst_val(v, lambda x, a=a, alt=alt: alt if x == a else None)
+                            new.append((conds2, cnf2, self.resolve_paths(v2, cnf2)))
+                    work = new + work
+                    continue
+                out.append((conds, cnf, v))
         return out
+
+    def _first_paths_atom(self, v):
+        found = []
+
+        def walk(x):
+            if found:
+                return
+            if isinstance(x, Rat):
+                for a in x.atoms(True):
+                    if isinstance(a, Fn) and a.name == "paths" and a.key() in self.paths_conds:
+                        found.append(a)
+                        return
+            elif isinstance(x, (tuple, list)):
+                for y in x:
+                    walk(y)
+            elif isinstance(x, dict):
+                for y in x.values():
+                    walk(y)
+        walk(v)
+        return found[0] if found else None
 
     def returns(self, finfo, args=None, kwargs=None, self_obj=None):
         """list of (conds, return value); falls-off-the-end paths give None."""
@@ -937,6 +1048,25 @@ class Interp(object):
                 ast.fix_missing_locations(loop)
                 body = [loop]
             return self.st_For(body[0], s, ctx)
+        # for a, b in itertools.product(A, B): ...  is  for a in A: for b in B: ...  ; product(A, repeat=k) nests A k times
+        if isinstance(st.iter, ast.Call) and norm_text(st.iter.func).split(".")[-1] == "product" and isinstance(st.target, ast.Tuple) \
+                and all(isinstance(t_, ast.Name) for t_ in st.target.elts) and not st.orelse \
+                and not any(isinstance(a_, ast.Starred) for a_ in st.iter.args) and st.iter.args:
+            b_ = self.ix.resolve_call(ctx.finfo, st.iter) if hasattr(self.ix, "resolve_call") else None
+            rep_ = [kw_ for kw_ in st.iter.keywords if kw_.arg == "repeat"]
+            its = list(st.iter.args)
+            if len(rep_) == 1 and isinstance(rep_[0].value, ast.Constant) and isinstance(rep_[0].value.value, int) and len(st.iter.keywords) == 1:
+                its = its * rep_[0].value.value
+            elif st.iter.keywords:
+                its = None
+            if its is not None and len(its) == len(st.target.elts) and b_ is not None and getattr(b_, "target", None) == "itertools.product":
+                body = st.body
+                for t_, a_ in reversed(list(zip(st.target.elts, its))):
+                    loop = ast.For(target=t_, iter=a_, body=body, orelse=[])
+                    ast.copy_location(loop, st)
+                    ast.fix_missing_locations(loop)
+                    body = [loop]
+                return self.st_For(body[0], s, ctx)
         # for i, j in zip(*numpy.tril_indices(n)): ...   is   for i in range(n): for j in range(i + 1): ...
         # for i, j in zip(*numpy.triu_indices(n)): ...   is   for i in range(n): for j in range(i, n): ...      (row-major order)
         if isinstance(st.iter, ast.Call) and norm_text(st.iter.func) == "zip" and len(st.iter.args) == 1 and not st.iter.keywords \
@@ -961,6 +1091,8 @@ class Interp(object):
                 ast.fix_missing_locations(x_)
             return self.st_For(outer, s, ctx)
         it = self.ev(st.iter, s.env, ctx)
+        if isinstance(it, GenVal):
+            it = it.remaining() if not it.done else unk("exhausted_generator")
         fq = ctx.finfo.fq
         if isinstance(it, (tuple, list)) and not _is_slice(it) and not (isinstance(it, SeqList) and it.seq() is not None) \
                 and 1 <= len(it) <= 16 and not st.orelse and not (it and isinstance(it[0], str) and it[0] in ("enumerate", "zip", "slice")) and \
@@ -981,10 +1113,13 @@ class Interp(object):
         tag = "L@%s" % ctx.loop_depth          # alpha-renamed loop variable: nesting depth, not the source name
         if not hasattr(ctx, "loop_stack"):
             ctx.loop_stack = []
+        over_ = _range_of_listcomp(it, tag)
+        if over_ is not None:
+            it = over_[0]
         ctx.loop_stack.append((tag, _itkey(it), st))
         # bind loop target symbolically
         body_state = s.fork("for %s in %s" % (norm_text(st.target), norm_text(st.iter)))
-        tv = self.loop_target_value(st.target, it, tag)
+        tv = over_[1] if over_ is not None else self.loop_target_value(st.target, it, tag)
         self.assign(st.target, tv, body_state, ctx, st)
         # iterating an array of rank >= 2 yields *views* of its items: an in-place update of the item is one of the array
         pairs = []
@@ -1024,7 +1159,8 @@ class Interp(object):
                         and not self._elementwise_own_index(st.body, n, tnames):
                     body_state.env[n] = unk("carried", n, st.lineno)
                     really_carried.append(n)
-        if really_carried and isinstance(it, RangeVal) and isinstance(tv, Rat) and isinstance(tv.single_atom(), Sym):
+        tv_rng = Rat.sym(tag, ("int", "loopvar")) if (over_ is not None and isinstance(it, RangeVal)) else tv
+        if really_carried and isinstance(it, RangeVal) and isinstance(tv_rng, Rat) and isinstance(tv_rng.single_atom(), Sym):
             # induction on the trip count: if the value carried into the next iteration is a function g(i) of the loop variable
             # only (not of what was carried in), then iteration i > lo starts with g(i - step); if the value the loop is entered
             # with equals g(lo - step) as well, every iteration starts with g(i - step).  Probe pass, then the real pass.
@@ -1033,7 +1169,7 @@ class Interp(object):
             p_outs = [o for o in self.exec_block(st.body, [probe], ctx) if o.ret is NORET and o.flow in (None, "continue")]
             for lg, m_ in zip(self._logs(), marks):
                 del lg[m_:]
-            lvs = tv.single_atom()
+            lvs = tv_rng.single_atom()
             for n in really_carried:
                 upd = [o.env.get(n) for o in p_outs]
                 if not upd or not all(isinstance(u, Rat) for u in upd) or any(vkey(u) != vkey(upd[0]) for u in upd):
@@ -1041,7 +1177,7 @@ class Interp(object):
                 g = upd[0]
                 if has_unknown(g):
                     continue
-                prev = g.subst(lambda a: (tv - it.step) if a == lvs else None)
+                prev = g.subst(lambda a: (tv_rng - it.step) if a == lvs else None)
                 at_entry = g.subst(lambda a: (it.lo - it.step) if a == lvs else None)
                 e0 = entry.get(n)
                 if isinstance(e0, Rat) and (vkey(e0) == vkey(at_entry) or _safe_equals(e0, at_entry)):
@@ -1413,6 +1549,8 @@ class Interp(object):
         b = self.ix.namespace(ctx.finfo.module.name).get(e.id)
         if b is not None:
             return self.binding_value(b, e.id)
+        if e.id == "Ellipsis":
+            return Ellipsis
         if e.id in BUILTINS:
             return ExtRef("builtins." + e.id)
         if e.id in ("True", "False", "None"):
@@ -1653,12 +1791,20 @@ class Interp(object):
         if len(e.generators) == 1 and not e.generators[0].ifs:
             g = e.generators[0]
             it = self.ev(g.iter, env, ctx)
+            if isinstance(it, GenVal):
+                it = it.remaining() if not it.done else unk("exhausted_generator")
             if not (isinstance(it, SeqList) and it.seq() is not None):
                 env2 = dict(env)
                 # canonical (alpha-renamed) comprehension variable: depth of nesting, not the source name
                 tag = "c%d@c" % depth0
                 st = State(env2)
-                self.assign(g.target, self.loop_target_value(g.target, it, tag), st, ctx, e)
+                over = _range_of_listcomp(it, tag)
+                if over is not None:
+                    # iterating over [g(c) for c in range(...)] is iterating over the range with the item g(c)
+                    it, tv_ = over
+                    self.assign(g.target, tv_, st, ctx, e)
+                else:
+                    self.assign(g.target, self.loop_target_value(g.target, it, tag), st, ctx, e)
                 self._comp_depth = depth0 + 1
                 try:
                     elt = self.ev(e.elt, st.env, ctx)
@@ -1700,8 +1846,22 @@ class Interp(object):
 
     ev_GeneratorExp = ev_ListComp
 
+    def ev_GeneratorExp(self, e, env, ctx):
+        lc = ast.ListComp(elt=e.elt, generators=e.generators)
+        ast.copy_location(lc, e)
+        v = self.ev_ListComp(lc, env, ctx)
+        la = v.single_atom() if isinstance(v, Rat) else None
+        if isinstance(la, Fn) and la.name == "listcomp" and isinstance(la.args[0], Rat) and isinstance(la.args[2], tuple) and len(la.args[2]) == 3 \
+                and all(isinstance(x, Rat) for x in la.args[2]):
+            return GenVal(v)
+        return v        # consumed once, in order: the list of its items
+
     def ev_Lambda(self, e, env, ctx):
-        return unk("lambda")
+        a = e.args
+        if a.vararg or a.kwarg or a.kwonlyargs or a.defaults or a.posonlyargs or any(isinstance(n_, (ast.Lambda, ast.NamedExpr, ast.Yield, ast.Await))
+                                                                                     for n_ in ast.walk(e.body)):
+            return unk("lambda")
+        return LamRef(e, env)
 
     def ev_UnaryOp(self, e, env, ctx):
         v = self.ev(e.operand, env, ctx)
@@ -1825,6 +1985,16 @@ class Interp(object):
                 kwargs[k.arg] = self.ev(k.value, env, ctx)
         self.call_log.append((ctx.finfo.fq, norm_text(e.func), args, kwargs, e.lineno,
                               getattr(getattr(ctx, "state_now", None), "cond_nf", ())))
+        if isinstance(f, LamRef):
+            params = [x.arg for x in f.node.args.args]
+            if kwargs or len(args) != len(params):
+                return unk("lambda_call")
+            env2 = dict(f.env)
+            for k_ in ("__alias__", "__views__", "__ranks__", "__arrays__"):
+                if k_ in env:
+                    env2[k_] = env[k_]
+            env2.update(zip(params, args))
+            return self.ev(f.node.body, env2, ctx)
         if isinstance(f, FuncRef):
             return self.call_repo(f.finfo, args, kwargs, ctx, call_node=e, env=env)
         if isinstance(f, BoundMethod):
@@ -1983,6 +2153,11 @@ class Interp(object):
                 e = e2
             except SyntaxError:
                 pass
+        if any(isinstance(a_, GenVal) for a_ in args):
+            if dotted == "builtins.next" and len(args) == 1:
+                g_ = args[0]
+                return g_.next_item() if not g_.done else unk("next_on_exhausted_generator")
+            args = [(a_.remaining() if not a_.done else unk("exhausted_generator")) if isinstance(a_, GenVal) else a_ for a_ in args]
         h = EXT_CALLS.get(dotted)
         if h is not None:
             r = h(self, args, kwargs, e, env, ctx)
@@ -2684,6 +2859,14 @@ def _slice_obj(I, a, k, e, env, ctx):
     return NotImplemented
 
 
+@ext("numpy.nonzero")
+def _nonzero(I, a, k, e, env, ctx):
+    # nonzero(c) is where(c) with one argument: the tuple of index arrays of the true cells, in row-major order
+    if len(a) == 1 and isinstance(a[0], Rat) and not k:
+        return Rat.atom(Fn("where1", (a[0],)))
+    return NotImplemented
+
+
 @ext("numpy.argwhere")
 def _argwhere(I, a, k, e, env, ctx):
     # argwhere(c) is transpose(nonzero(c)) (NumPy documentation) = array(where(c)).T
@@ -2718,7 +2901,7 @@ def mk_getitem(o, idx):
             isinstance(a.args[0], tuple) and len(a.args[0]) == 2:
         # table of prefix sums: concatenate(([0], cumsum(v)))[i] is v[:i].sum()
         z, cs = a.args[0]
-        z0 = z[0] if isinstance(z, (tuple, list)) and len(z) == 1 else (z.single_atom().args[0][0]
+        z0 = z[0] if isinstance(z, (tuple, list)) and len(z) == 1 else z if isinstance(z, Rat) and z.is_zero() else (z.single_atom().args[0][0]
                                                                           if isinstance(z, Rat) and isinstance(z.single_atom(), Fn) and
                                                                           z.single_atom().name == "array" and len(z.single_atom().args[0]) == 1 else None)
         ca = cs.single_atom() if isinstance(cs, Rat) else None
@@ -2928,6 +3111,8 @@ def _append(I, a, k, e, env, ctx):
         return NotImplemented
     if nm == "concatenate" and ax is None:
         ax = Rat.const(0)
+    # a one-element list / tuple contributes its single element, like the scalar it holds does in numpy.append
+    parts = tuple(p_[0] if isinstance(p_, (list, tuple)) and not _is_slice(p_) and len(p_) == 1 and isinstance(p_[0], Rat) else p_ for p_ in parts)
     return Rat.atom(Fn("concat", (tuple(parts), _axis(ax))))
 
 
@@ -2982,6 +3167,13 @@ def _fftfreq(I, a, k, e, env, ctx):
     n = a[0] if a else k.get("n")
     d = a[1] if len(a) > 1 else k.get("d", Rat.const(1))
     return Rat.atom(Fn("fftfreq", (n, d)))
+
+
+@ext("numpy.fft.rfftfreq")
+def _rfftfreq(I, a, k, e, env, ctx):
+    n = a[0] if a else k.get("n")
+    d = a[1] if len(a) > 1 else k.get("d", Rat.const(1))
+    return Rat.atom(Fn("rfftfreq", (n, d)))
 
 
 @ext("numpy.linalg.pinv", "scipy.linalg.pinv")
@@ -3043,7 +3235,7 @@ def _next_fast_len(I, a, k, e, env, ctx):
 
 @ext("numpy.triu_indices", "numpy.tril_indices", "numpy.diag_indices", "numpy.triu_indices_from", "numpy.tril_indices_from",
      "numpy.triu", "numpy.tril", "numpy.trim_zeros", "numpy.unique", "numpy.argsort", "numpy.searchsorted", "numpy.take",
-     "numpy.compress", "numpy.nonzero", "numpy.broadcast_to", "numpy.expand_dims", "numpy.squeeze", "numpy.atleast_2d",
+     "numpy.compress", "numpy.broadcast_to", "numpy.expand_dims", "numpy.squeeze", "numpy.atleast_2d",
      "numpy.atleast_1d", "numpy.isscalar", "numpy.ndim", "numpy.size", "numpy.issubdtype", "numpy.iscomplexobj",
      "numpy.isrealobj", "numpy.result_type")
 def _named2(I, a, k, e, env, ctx):
